@@ -33,7 +33,7 @@ LEVEL_NOTE = ('Assumed callee contracts in Logix.request: resolve/lookup/route/p
               'exercised in the bounded tier). Object.request (Get/Set Attribute Single), setup_tag, resolve_tag, redirect_tag: bounded only. '
               'Element values are integers (REAL/LREAL/STRING values only in the bounded tier).')
 TECHNIQUE = 'contracts on Attribute accessors and Logix.request against an array view, VCs from the real AST, z3/cvc5; bounded request histories vs array model'
-TRUSTED = ['assumed callee contracts: resolve, lookup, route, produce', 'Python slice.indices clamping as modelled in pyvc.pure.clamp_slice (cross-checked)']
+TRUSTED = ['producer contracts shared with C01 / C07 carry their assumptions (nested producers as opaque byte strings)', 'assumed callee contracts: resolve, lookup, route, produce', 'Python slice.indices clamping as modelled in pyvc.pure.clamp_slice (cross-checked)']
 ASSUMPTIONS = ['integer element values in the proof tier', 'single thread']
 
 C03_LABELS = ('a-read-never-changes-the-tag', 'success-returns-exactly-the-addressed-elements',
